@@ -94,7 +94,12 @@ func (u *Universe) termFor(r *Rng, field []byte) []byte {
 	return []byte("t")
 }
 
+var varintEdges = []int{127, 128, 129, 255, 256, 16383, 16384, 16385, 2097151, 2097152}
+
 func smallOrBig(r *Rng) int {
+	if r.Chance(1, 7) {
+		return varintEdges[r.Intn(len(varintEdges))] // values at which a varint grows by a byte
+	}
 	switch r.Intn(10) {
 	case 0:
 		return r.Range(128, 300)
